@@ -46,9 +46,12 @@ def tokenize(s):
 
 
 class Parser:
-    """env: name -> Lean text (Nat valued).  sizeof/alignof: dict type name -> Lean text."""
+    """C integer expression -> AST.  Nodes: ("num", v) ("var", leanText, pyName) ("bin", op, a, b) ("cmp", op, a, b)
+    ("and"|"or", a, b) ("not", a) ("ite", c, a, b) ("lcm", a, b) ("max",) .
+    env: C name -> (Lean text, evaluation name); sizeof/alignof: type name -> (Lean text, evaluation name)."""
 
     def __init__(self, text, env, sizeof, alignof):
+        text = re.sub(r"std::numeric_limits\s*<\s*(?:std::)?(?:size_t|size_type)\s*>\s*::\s*max\s*\(\s*\)", "size_type(-1)", text)
         self.t = tokenize(text)
         self.i = 0
         self.env, self.sizeof, self.alignof = env, sizeof, alignof
@@ -70,15 +73,6 @@ class Parser:
             raise TranslateError("trailing tokens in %r" % self.text)
         return e
 
-    # every node is (kind, leanText) with kind in {"nat", "prop"}
-    def as_prop(self, e):
-        return e[1] if e[0] == "prop" else "(%s ≠ 0)" % e[1]
-
-    def as_nat(self, e):
-        if e[0] == "nat":
-            return e[1]
-        return "(if %s then 1 else 0)" % e[1]
-
     def ternary(self):
         c = self.lor()
         if self.peek() == ("op", "?"):
@@ -86,67 +80,58 @@ class Parser:
             a = self.ternary()
             self.eat("op", ":")
             b = self.ternary()
-            return ("nat", "(if %s then %s else %s)" % (self.as_prop(c), self.as_nat(a), self.as_nat(b)))
+            return ("ite", c, a, b)
         return c
 
     def lor(self):
         e = self.land()
         while self.peek() == ("op", "||"):
             self.eat()
-            r = self.land()
-            e = ("prop", "(%s ∨ %s)" % (self.as_prop(e), self.as_prop(r)))
+            e = ("or", e, self.land())
         return e
 
     def land(self):
         e = self.equality()
         while self.peek() == ("op", "&&"):
             self.eat()
-            r = self.equality()
-            e = ("prop", "(%s ∧ %s)" % (self.as_prop(e), self.as_prop(r)))
+            e = ("and", e, self.equality())
         return e
 
     def equality(self):
         e = self.relational()
         while self.peek() in (("op", "=="), ("op", "!=")):
             op = self.eat()
-            r = self.relational()
-            e = ("prop", "(%s %s %s)" % (self.as_nat(e), "=" if op == "==" else "≠", self.as_nat(r)))
+            e = ("cmp", op, e, self.relational())
         return e
 
     def relational(self):
         e = self.additive()
         while self.peek() in (("op", "<"), ("op", "<="), ("op", ">"), ("op", ">=")):
             op = self.eat()
-            r = self.additive()
-            lop = {"<": "<", "<=": "≤", ">": ">", ">=": "≥"}[op]
-            e = ("prop", "(%s %s %s)" % (self.as_nat(e), lop, self.as_nat(r)))
+            e = ("cmp", op, e, self.additive())
         return e
 
     def additive(self):
         e = self.multiplicative()
         while self.peek() in (("op", "+"), ("op", "-")):
             op = self.eat()
-            r = self.multiplicative()
-            e = ("nat", "(%s %s %s)" % (self.as_nat(e), op, self.as_nat(r)))
+            e = ("bin", op, e, self.multiplicative())
         return e
 
     def multiplicative(self):
         e = self.unary()
         while self.peek() in (("op", "*"), ("op", "/"), ("op", "%")):
             op = self.eat()
-            r = self.unary()
-            e = ("nat", "(%s %s %s)" % (self.as_nat(e), op, self.as_nat(r)))
+            e = ("bin", op, e, self.unary())
         return e
 
     def unary(self):
         if self.peek() == ("op", "!"):
             self.eat()
-            e = self.unary()
-            return ("prop", "(¬ %s)" % self.as_prop(e))
+            return ("not", self.unary())
         return self.primary()
 
     def type_name(self):
-        # a type name inside sizeof()/alignof(): identifier, optionally followed by '*'
         name = self.eat("id")
         while self.peek() == ("op", "*"):
             self.eat()
@@ -157,7 +142,7 @@ class Parser:
         k, v = self.peek()
         if k == "num":
             self.eat()
-            return ("nat", v)
+            return ("num", int(v))
         if k == "op" and v == "(":
             self.eat()
             e = self.ternary()
@@ -172,37 +157,158 @@ class Parser:
                 table = self.sizeof if v == "sizeof" else self.alignof
                 if tn not in table:
                     raise TranslateError("%s(%s): unknown type in %r" % (v, tn, self.text))
-                return ("nat", table[tn])
+                return ("var",) + tuple(table[tn])
             if v == "std::lcm":
                 self.eat("op", "(")
                 a = self.ternary()
                 self.eat("op", ",")
                 b = self.ternary()
                 self.eat("op", ")")
-                return ("nat", "(Nat.lcm %s %s)" % (self.as_nat(a), self.as_nat(b)))
+                return ("lcm", a, b)
             if v in ("size_type", "std::size_t", "size_t") and self.peek() == ("op", "("):
-                # size_type(-1): the largest value of the type
                 self.eat("op", "(")
                 self.eat("op", "-")
                 one = self.eat("num")
                 self.eat("op", ")")
                 if one != "1":
                     raise TranslateError("size_type(-%s) not understood" % one)
-                return ("nat", "sizeMax")
+                return ("max",)
             if v in self.env:
-                return ("nat", self.env[v])
+                return ("var",) + tuple(self.env[v])
             raise TranslateError("unknown identifier %r in %r" % (v, self.text))
         raise TranslateError("unexpected token %r in %r" % (v, self.text))
 
 
-def lean(expr, env, sizeof=None, alignof=None):
-    e = Parser(expr, env, sizeof or {}, alignof or {}).parse()
-    return e[1] if e[0] == "nat" else e[1]
+CMP = {"<": "<", "<=": "≤", ">": ">", ">=": "≥", "==": "=", "!=": "≠"}
+PROPS = ("cmp", "and", "or", "not")
 
 
-def lean_prop(expr, env, sizeof=None, alignof=None):
-    p = Parser(expr, env, sizeof or {}, alignof or {})
-    return p.as_prop(p.parse())
+def to_lean(e, want="nat"):
+    """Lean text of an AST; C's int<->bool conversions made explicit"""
+    k = e[0]
+    if k in PROPS:
+        if k == "cmp":
+            t = "(%s %s %s)" % (to_lean(e[2]), CMP[e[1]], to_lean(e[3]))
+        elif k == "and":
+            t = "(%s ∧ %s)" % (to_lean(e[1], "prop"), to_lean(e[2], "prop"))
+        elif k == "or":
+            t = "(%s ∨ %s)" % (to_lean(e[1], "prop"), to_lean(e[2], "prop"))
+        else:
+            t = "(¬ %s)" % to_lean(e[1], "prop")
+        return t if want == "prop" else "(if %s then 1 else 0)" % t
+    if k == "num":
+        t = str(e[1])
+    elif k == "var":
+        t = e[1]
+    elif k == "max":
+        t = "sizeMax"
+    elif k == "bin":
+        t = "(%s %s %s)" % (to_lean(e[2]), e[1], to_lean(e[3]))
+    elif k == "lcm":
+        t = "(Nat.lcm %s %s)" % (to_lean(e[1]), to_lean(e[2]))
+    elif k == "ite":
+        t = "(if %s then %s else %s)" % (to_lean(e[1], "prop"), to_lean(e[2]), to_lean(e[3]))
+    else:
+        raise TranslateError("bad node %r" % (e,))
+    return t if want == "nat" else "(%s ≠ 0)" % t
+
+
+def evaluate(e, val):
+    """value of an AST over the naturals with Lean's conventions (truncated subtraction, x/0 = 0, x%0 = x)"""
+    k = e[0]
+    if k == "num":
+        return e[1]
+    if k == "var":
+        return val[e[2]]
+    if k == "max":
+        return 2 ** 64 - 1
+    if k == "bin":
+        a, b = evaluate(e[2], val), evaluate(e[3], val)
+        if e[1] == "+":
+            return a + b
+        if e[1] == "-":
+            return max(a - b, 0)
+        if e[1] == "*":
+            return a * b
+        if e[1] == "/":
+            return a // b if b else 0
+        return a % b if b else a
+    if k == "lcm":
+        import math
+        a, b = evaluate(e[1], val), evaluate(e[2], val)
+        return a * b // math.gcd(a, b) if a and b else 0
+    if k == "ite":
+        return evaluate(e[2], val) if evaluate(e[1], val) else evaluate(e[3], val)
+    if k == "cmp":
+        a, b = evaluate(e[2], val), evaluate(e[3], val)
+        return int({"<": a < b, "<=": a <= b, ">": a > b, ">=": a >= b, "==": a == b, "!=": a != b}[e[1]])
+    if k == "and":
+        return int(bool(evaluate(e[1], val)) and bool(evaluate(e[2], val)))
+    if k == "or":
+        return int(bool(evaluate(e[1], val)) or bool(evaluate(e[2], val)))
+    if k == "not":
+        return int(not evaluate(e[1], val))
+    raise TranslateError("bad node %r" % (e,))
+
+
+class Defs:
+    """collects `def name (params) : Nat := expr` lines.  `canonical` is the C text the proofs were written against:
+    when the source's expression is textually different but takes the same value on every point of `grid`, the
+    canonical Lean text is emitted (so that an equivalent rewrite of a formula does not break a proof script) and the
+    source text is recorded in a comment; when the values differ anywhere, the source's own expression is emitted and
+    the theorems have to be re-proved about it (or fail)."""
+
+    def __init__(self, out):
+        self.out = out
+        self.fn = {}     # name -> (param names, ast) for evaluation of references
+
+    def add(self, name, params, ctext, canonical, env, sizeof=None, alignof=None, grid=None, wrap=False, prop=False):
+        sizeof, alignof = sizeof or {}, alignof or {}
+        ast = Parser(ctext, env, sizeof, alignof).parse()
+        chosen, note = ast, None
+        if canonical is not None:
+            cast = Parser(canonical, env, sizeof, alignof).parse()
+            if cast != ast:
+                pts = list(grid())
+                same = all(self.value(ast, params, p, wrap) == self.value(cast, params, p, wrap) for p in pts)
+                if same:
+                    chosen = cast
+                    note = "-- source: `%s` (textually different; equal to the form below on %d grid points)" % (
+                        re.sub(r"\s+", " ", ctext.strip()), len(pts))
+        if note:
+            self.out.append(note)
+        body = to_lean(chosen, "prop" if prop else "nat")
+        if wrap:
+            body = "wrap " + body
+        if prop:
+            self.out.append("def %s (%s : Nat) : Bool := decide %s" % (name, " ".join(params), body))
+        else:
+            self.out.append("def %s (%s : Nat) : Nat := %s" % (name, " ".join(params), body))
+        self.fn[name] = (params, chosen, wrap)
+
+    def value(self, ast, params, point, wrap):
+        val = Env(self, dict(zip(params, point)))
+        v = evaluate(ast, val)
+        return v % 2 ** 64 if wrap else v
+
+
+class Env:
+    """evaluation environment: parameters, target constants, and previously defined functions applied to the same
+    parameter names (`fn:unionSize` means `unionSize sz al s` at the current point)"""
+
+    def __init__(self, defs, point):
+        self.defs, self.point = defs, point
+
+    def __getitem__(self, key):
+        if key in self.point:
+            return self.point[key]
+        if key == "refSize" or key == "refAlign":
+            return 8
+        if key.startswith("fn:"):
+            params, ast, wrap = self.defs.fn[key[3:]]
+            v = evaluate(ast, Env(self.defs, {p: self.point[p] for p in params}))
+            return v % 2 ** 64 if wrap else v
+        raise TranslateError("no value for %r" % key)
 
 
 # ------------------------------------------------------------------------------------------------
@@ -245,11 +351,55 @@ def find(rx, src, what, flags=re.S):
     return m
 
 
+def block_after(src, m, what):
+    """text between the `{` that ends match `m` and its matching `}`"""
+    i = m.end()
+    if src[i - 1] != "{":
+        raise TranslateError("%s: no opening brace" % what)
+    depth, j = 1, i
+    while j < len(src) and depth:
+        depth += {"{": 1, "}": -1}.get(src[j], 0)
+        j += 1
+    if depth:
+        raise TranslateError("%s: unbalanced braces" % what)
+    return src[i:j - 1]
+
+
 def nows(s):
     return re.sub(r"\s+", "", s)
 
 
 # ------------------------------------------------------------------------------------------------
+def pool_grid():
+    for sz in list(range(1, 131)) + [255, 256, 1000]:
+        for al in (1, 2, 4, 8, 16, 32, 64, 128):
+            for s in sorted({0, 1, 2, 7, 8, 9, 15, 16, 17, 31, 33, 63, 64, 65, 100, 127, 128, 129, 255, 256, 257, 1000, 4096,
+                             sz - 1, sz, sz + 1, 2 * sz, 2 * sz + 1, 7 * sz, 10 * sz + 3}):
+                yield (sz, al, s)
+
+
+def count_grid():
+    M = 2 ** 64 - 1
+    for sz in list(range(1, 131)) + [255, 256, 4096]:
+        for n in (0, 1, 2, 3, 7, 100, 4096, M // sz - 1, M // sz, M // sz + 1, 2 ** 63, M, M // 2, 2 ** 61 + 1, 2 ** 32 + 1):
+            yield (sz, n)
+
+
+def page_grid():
+    for page in (4096, 16384, 65536):
+        for k in range(0, 4):
+            for d in (0, 1, 2, 7, 8, 100, page // 2, page - 8, page - 1):
+                yield (k * page + d, page)
+        for cap in (2 ** 40, 2 ** 40 + 1, 2 ** 63, 2 ** 64 - 3 * page, 2 ** 64 - 2 * page - 1):
+            yield (cap, page)
+
+
+def limit_grid():
+    for page in (4096, 16384, 65536):
+        for sz in list(range(1, 131)) + [256, 4096]:
+            yield (sz, page)
+
+
 def translate(repo):
     out = ["-- GENERATED by tools/translators/tr_c15.py from dune/common/{poolallocator,mallocallocator,alignedallocator,"
            "debugallocator}.hh -- do not edit",
@@ -262,6 +412,7 @@ def translate(repo):
            "/-- reduction of a `std::size_t` result -/",
            "def wrap (x : Nat) : Nat := x % 18446744073709551616",
            ""]
+    D = Defs(out)
 
     # ---- Pool geometry ------------------------------------------------------------------------
     src = strip_comments(open(os.path.join(repo, "dune/common/poolallocator.hh")).read())
@@ -270,43 +421,65 @@ def translate(repo):
     pool_src, pa_src = src[pool_at:pa_at], src[pa_at:]
     if not re.search(r"struct\s+Reference\s*\{\s*Reference\s*\*\s*next_\s*;\s*\}\s*;", pool_src):
         raise TranslateError("Pool::Reference is no longer a single pointer")
-    sizeof = {"MemberType": "sz", "T": "sz", "Reference": "refSize"}
-    alignof = {"MemberType": "al", "T": "al", "Reference": "refAlign"}
-    env = {"s": "s"}
+    sizeof = {"MemberType": ("sz", "sz"), "T": ("sz", "sz"), "Reference": ("refSize", "refSize")}
+    alignof = {"MemberType": ("al", "al"), "T": ("al", "al"), "Reference": ("refAlign", "refAlign")}
+    env = {"s": ("s", "s")}
+    canon = {
+        "unionSize": "(sizeof(MemberType) < sizeof(Reference)) ? sizeof(Reference) : sizeof(MemberType)",
+        "size": "(sizeof(MemberType) <= s && sizeof(Reference) <= s) ? s : unionSize",
+        "alignment": "std::lcm(alignof(MemberType), alignof(Reference))",
+        "alignedSize": "(unionSize % alignment == 0) ? unionSize : ((unionSize / alignment + 1) * alignment)",
+        "chunkSize": "(size % alignment == 0) ? size : ((size / alignment + 1)* alignment)",
+        "elements": "(chunkSize / alignedSize)",
+    }
     out.append("/-! Pool<T,s>: compile-time slot geometry as functions of sz = sizeof(T), al = alignof(T), s -/")
     for name in ("unionSize", "size", "alignment", "alignedSize", "chunkSize", "elements"):
         m = find(r"constexpr\s+static\s+(?:int|std::size_t|size_t|unsigned)\s+%s\s*=\s*([^;]+);" % name, pool_src,
                  "Pool::" + name)
-        out.append("def %s (sz al s : Nat) : Nat := %s" % (name, lean(m.group(1), env, sizeof, alignof)))
-        env[name] = "(%s sz al s)" % name
+        D.add(name, ("sz", "al", "s"), m.group(1), canon[name], env, sizeof, alignof, grid=pool_grid)
+        env[name] = ("(%s sz al s)" % name, "fn:" + name)
     # the chunk really has chunkSize bytes aligned to `alignment`
     if not re.search(r"alignas\s*\(\s*alignment\s*\)\s*char\s+chunk_\s*\[\s*chunkSize\s*\]\s*;", pool_src):
         raise TranslateError("Pool::Chunk::chunk_ is no longer `alignas(alignment) char chunk_[chunkSize]`")
     out.append("")
     out.append("/-! PoolAllocator<T,s> -/")
     m = find(r"constexpr\s+static\s+(?:int|std::size_t|size_t)\s+size\s*=\s*([^;]+);", pa_src, "PoolAllocator::size")
-    out.append("def paPoolSize (sz s : Nat) : Nat := %s" % lean(m.group(1), {"s": "s"}, {"value_type": "sz", "T": "sz"}))
+    D.add("paPoolSize", ("sz", "s"), m.group(1), "s * sizeof(value_type)", {"s": ("s", "s")},
+          {"value_type": ("sz", "sz"), "T": ("sz", "sz")}, grid=lambda: ((a, c) for (a, b, c) in pool_grid() if b == 1))
     if not re.search(r"typedef\s+Pool\s*<\s*T\s*,\s*size\s*>\s*PoolType\s*;", pa_src):
         raise TranslateError("PoolAllocator::PoolType is no longer Pool<T,size>")
-    m = find(r"PoolAllocator<T,s>::allocate\s*\([^)]*\)\s*\{\s*if\s*\(([^)]*)\)\s*return\s+static_cast<T\*>\s*\(\s*"
-             r"memoryPool_\.allocate\(\)\s*\)\s*;\s*else\s+throw\s+std::bad_alloc\s*\(\s*\)\s*;\s*\}", src,
-             "PoolAllocator::allocate body (if (n==1) return pool.allocate(); else throw bad_alloc)")
-    out.append("def paAccepts (n : Nat) : Bool := decide %s" % lean_prop(m.group(1), {"n": "n"}))
+    m = find(r"PoolAllocator<T,s>::allocate\s*\([^)]*\)\s*\{", src, "PoolAllocator::allocate")
+    pbody = nows(block_after(src, m, "PoolAllocator::allocate"))
+    ret = r"returnstatic_cast<T\*>\(memoryPool_\.allocate\(\)\);"
+    thr = r"throwstd::bad_alloc\(\);"
+    m1 = re.fullmatch(r"if\((.*?)\)\{?%s\}?else\{?%s\}?" % (ret, thr), pbody)
+    m2 = re.fullmatch(r"if\((.*?)\)\{?%s\}?(?:else)?\{?%s\}?" % (thr, ret), pbody)
+    grid1 = lambda: ((n,) for n in (0, 1, 2, 3, 2 ** 32, 2 ** 32 + 1, 2 ** 63, 2 ** 64 - 1))
+    if m1:
+        D.add("paAccepts", ("n",), m1.group(1), "n==1", {"n": ("n", "n")}, prop=True, grid=grid1)
+    elif m2:
+        D.add("paAccepts", ("n",), "!(" + m2.group(1) + ")", "n==1", {"n": ("n", "n")}, prop=True, grid=grid1)
+    else:
+        raise TranslateError("PoolAllocator::allocate body not understood: %r" % pbody)
     out.append("")
 
     # ---- MallocAllocator ----------------------------------------------------------------------
     src = drop_foreign_branches(strip_comments(open(os.path.join(repo, "dune/common/mallocallocator.hh")).read()))
     out.append("/-! MallocAllocator<T> -/")
+    szT = {"T": ("sz", "sz"), "value_type": ("sz", "sz")}
     m = find(r"size_type\s+max_size\s*\(\s*\)\s*const\s*(?:noexcept)?\s*\{\s*return\s+([^;]+);\s*\}", src,
              "MallocAllocator::max_size")
-    out.append("def mallocMaxSize (sz : Nat) : Nat := %s" % lean(m.group(1), {}, {"T": "sz"}))
-    body = find(r"pointer\s+allocate\s*\(\s*size_type\s+n[^)]*\)\s*\{(.*?)\n\s*\}", src, "MallocAllocator::allocate").group(1)
-    chk = re.search(r"if\s*\(\s*n\s*>\s*(?:this\s*->\s*)?max_size\s*\(\s*\)\s*\)\s*throw\s+std::bad_alloc\s*\(\s*\)\s*;", body)
+    D.add("mallocMaxSize", ("sz",), m.group(1), "size_type(-1) / sizeof(T)", {}, szT,
+          grid=lambda: ((a,) for a in range(1, 4100)))
+    body = block_after(src, find(r"pointer\s+allocate\s*\(\s*size_type\s+n[^)]*\)\s*\{", src, "MallocAllocator::allocate"),
+                       "MallocAllocator::allocate")
+    chk_rx = r"if\s*\(\s*n\s*>\s*(?:this\s*->\s*)?max_size\s*\(\s*\)\s*\)\s*\{?\s*throw\s+std::bad_alloc\s*\(\s*\)\s*;"
+    chk = re.search(chk_rx, body)
     out.append("/-- `some m`: requests with n > m are refused before anything is computed; `none`: no such test -/")
     out.append("def mallocLimit (sz : Nat) : Option Nat := %s" % ("some (mallocMaxSize sz)" if chk else "none"))
     m = find(r"std::malloc\s*\(([^;]*)\)\s*\)\s*;", body, "std::malloc call")
-    out.append("def mallocBytes (sz n : Nat) : Nat := wrap %s" % lean(m.group(1), {"n": "n"}, {"T": "sz"}))
-    if not re.search(r"if\s*\(\s*!\s*ret\s*\)\s*throw\s+std::bad_alloc", body):
+    D.add("mallocBytes", ("sz", "n"), m.group(1), "n * sizeof(T)", {"n": ("n", "n")}, szT, grid=count_grid, wrap=True)
+    if not re.search(r"if\s*\(\s*!\s*ret\s*\)\s*\{?\s*throw\s+std::bad_alloc", body):
         raise TranslateError("MallocAllocator::allocate no longer turns a null result into bad_alloc")
     out.append("")
 
@@ -315,55 +488,60 @@ def translate(repo):
     out.append("/-! AlignedAllocator<T,Alignment>  (A = 0 encodes the default Alignment = -1) -/")
     m = find(r"fixAlignment\s*\(\s*int\s+align\s*\)\s*\{\s*return\s+([^;]+);\s*\}", src, "AlignedAllocator::fixAlignment")
     fx = nows(m.group(1))
-    if fx != "(Alignment==-1)?std::alignment_of<T>::value:Alignment":
+    if fx not in ("(Alignment==-1)?std::alignment_of<T>::value:Alignment", "(Alignment==-1)?alignof(T):Alignment",
+                  "Alignment==-1?std::alignment_of<T>::value:Alignment", "Alignment==-1?alignof(T):Alignment",
+                  "(Alignment==-1)?std::alignment_of_v<T>:Alignment"):
         raise TranslateError("fixAlignment changed: %r" % fx)
     find(r"alignment\s*=\s*fixAlignment\s*\(", src, "AlignedAllocator::alignment")
     out.append("def alignedAlignment (al A : Nat) : Nat := if A = 0 then al else A")
-    body = find(r"pointer\s+allocate\s*\(\s*size_type\s+n[^)]*\)\s*\{(.*?)\n\s*\}", src, "AlignedAllocator::allocate").group(1)
-    chk = re.search(r"if\s*\(\s*n\s*>\s*(?:this\s*->\s*)?max_size\s*\(\s*\)\s*\)\s*throw\s+std::bad_alloc\s*\(\s*\)\s*;", body)
+    body = block_after(src, find(r"pointer\s+allocate\s*\(\s*size_type\s+n[^)]*\)\s*\{", src, "AlignedAllocator::allocate"),
+                       "AlignedAllocator::allocate")
+    chk = re.search(chk_rx, body)
     out.append("def alignedLimit (sz : Nat) : Option Nat := %s" % ("some (mallocMaxSize sz)" if chk else "none"))
     m = find(r"size_type\s+size\s*=\s*([^;]+);", body, "AlignedAllocator byte size")
-    out.append("def alignedBytes (sz n : Nat) : Nat := wrap %s" % lean(m.group(1), {"n": "n"}, {"T": "sz"}))
+    D.add("alignedBytes", ("sz", "n"), m.group(1), "n * sizeof(T)", {"n": ("n", "n")}, szT, grid=count_grid, wrap=True)
     if not re.search(r"std::aligned_alloc\s*\(\s*alignment\s*,\s*size\s*\)", body):
         raise TranslateError("AlignedAllocator no longer calls std::aligned_alloc(alignment, size)")
-    if not re.search(r"if\s*\(\s*!\s*ret\s*\)\s*throw\s+std::bad_alloc", body):
+    if not re.search(r"if\s*\(\s*!\s*ret\s*\)\s*\{?\s*throw\s+std::bad_alloc", body):
         raise TranslateError("AlignedAllocator::allocate no longer turns a null result into bad_alloc")
     out.append("")
 
     # ---- DebugAllocator -----------------------------------------------------------------------
     src = drop_foreign_branches(strip_comments(open(os.path.join(repo, "dune/common/debugallocator.hh")).read()))
     out.append("/-! DebugMemory::AllocationManager: page arithmetic (page = page_size) -/")
-    body = find(r"T\s*\*\s*allocate\s*\(\s*size_type\s+n\s*\)\s*\{(.*?)return\s+static_cast<T\*>\s*\(\s*ai\.ptr\s*\)\s*;", src,
-                "AllocationManager::allocate").group(1)
-    sz_of = {"T": "sz"}
-    chk = re.search(r"if\s*\(\s*n\s*>\s*([^;{}]*?)\)\s*throw\s+std::bad_alloc\s*\(\s*\)\s*;", body)
+    body = block_after(src, find(r"T\s*\*\s*allocate\s*\(\s*size_type\s+n\s*\)\s*\{", src, "AllocationManager::allocate"),
+                       "AllocationManager::allocate")
+    find(r"return\s+static_cast<T\*>\s*\(\s*ai\.ptr\s*\)\s*;", body, "AllocationManager::allocate returns ai.ptr")
+    chk = re.search(r"if\s*\(\s*n\s*>\s*([^;{}]*?)\)\s*\{?\s*throw\s+std::bad_alloc\s*\(\s*\)\s*;", body)
     out.append("/-- `some m`: requests with n > m are refused before anything is computed; `none`: no such test -/")
     if chk:
-        out.append("def dbgLimit (sz page : Nat) : Option Nat := some %s" % lean(chk.group(1), {"page_size": "page"}, sz_of))
+        D.add("dbgMaxCount", ("sz", "page"), chk.group(1), "(size_type(-1) - 2 * page_size) / sizeof(T)",
+              {"page_size": ("page", "page")}, szT, grid=limit_grid)
+        out.append("def dbgLimit (sz page : Nat) : Option Nat := some (dbgMaxCount sz page)")
     else:
         out.append("def dbgLimit (sz page : Nat) : Option Nat := none")
     m = find(r"ai\.capacity\s*=\s*([^;]+);", body, "ai.capacity")
-    out.append("def dbgCapacity (sz n : Nat) : Nat := wrap %s" % lean(m.group(1), {"n": "n"}, sz_of))
-    env = {"ai.capacity": "cap", "page_size": "page"}
+    D.add("dbgCapacity", ("sz", "n"), m.group(1), "n * sizeof(T)", {"n": ("n", "n")}, szT, grid=count_grid, wrap=True)
+    env = {"ai.capacity": ("cap", "cap"), "page_size": ("page", "page")}
     m = find(r"size_type\s+overlap\s*=\s*([^;]+);", body, "overlap")
-    out.append("def dbgOverlap (cap page : Nat) : Nat := %s" % lean(m.group(1), env))
-    env["overlap"] = "(dbgOverlap cap page)"
+    D.add("dbgOverlap", ("cap", "page"), m.group(1), "ai.capacity % page_size", env, grid=page_grid)
+    env["overlap"] = ("(dbgOverlap cap page)", "fn:dbgOverlap")
     m = find(r"ai\.pages\s*=\s*([^;]+);", body, "ai.pages")
-    out.append("def dbgPages (cap page : Nat) : Nat := %s" % lean(m.group(1), env))
-    env["ai.pages"] = "(dbgPages cap page)"
+    D.add("dbgPages", ("cap", "page"), m.group(1), "(ai.capacity) / page_size + (overlap ? 2 : 1)", env, grid=page_grid)
+    env["ai.pages"] = ("(dbgPages cap page)", "fn:dbgPages")
     m = find(r"mmap\s*\(\s*NULL\s*,\s*([^,]+),\s*PROT_READ\s*\|\s*PROT_WRITE\s*,", body, "mmap length")
-    out.append("def dbgMapLen (cap page : Nat) : Nat := wrap %s" % lean(m.group(1), env))
+    D.add("dbgMapLen", ("cap", "page"), m.group(1), "ai.pages * page_size", env, grid=page_grid, wrap=True)
     if not re.search(r"if\s*\(\s*MAP_FAILED\s*==\s*ai\.page_ptr\s*\)\s*\{?\s*throw\s+std::bad_alloc", body):
         raise TranslateError("a failed mmap is no longer reported as bad_alloc")
     m = find(r"ai\.ptr\s*=\s*static_cast<char\*>\s*\(\s*ai\.page_ptr\s*\)\s*\+\s*([^;]+);", body, "ai.ptr")
     out.append("/-- the block starts at page_ptr + dbgPtrOff -/")
-    out.append("def dbgPtrOff (cap page : Nat) : Nat := %s" % lean("(" + m.group(1) + ")", env))
+    D.add("dbgPtrOff", ("cap", "page"), "(" + m.group(1) + ")", "(overlap ? page_size - overlap : 0)", env, grid=page_grid)
     m = find(r"memprotect\s*\(\s*static_cast<char\*>\s*\(\s*ai\.page_ptr\s*\)\s*\+\s*(.+?),\s*page_size\s*,\s*PROT_NONE\s*\)\s*;",
              body, "guard page protection")
     out.append("/-- the inaccessible guard page is [page_ptr + dbgGuardOff, page_ptr + dbgGuardOff + page) -/")
-    out.append("def dbgGuardOff (cap page : Nat) : Nat := %s" % lean("(" + m.group(1) + ")", env))
-    dbody = find(r"void\s+deallocate\s*\(\s*T\s*\*\s*ptr\s*,\s*size_type\s+n\s*=\s*0\s*\)\s*(?:noexcept)?\s*\{(.*?)allocation_error",
-                 src, "AllocationManager::deallocate").group(1)
+    D.add("dbgGuardOff", ("cap", "page"), "(" + m.group(1) + ")", "(ai.pages-1) * page_size", env, grid=page_grid)
+    dbody = block_after(src, find(r"void\s+deallocate\s*\(\s*T\s*\*\s*ptr\s*,\s*size_type\s+n\s*=\s*0\s*\)\s*(?:noexcept)?\s*\{",
+                                  src, "AllocationManager::deallocate"), "AllocationManager::deallocate")
     key = find(r"void\s*\*\s*page_ptr\s*=\s*static_cast<void\*>\s*\((.*?)\)\s*;", dbody, "deallocate lookup key").group(1)
     if nows(key) != "(char*)(ptr)-((std::uintptr_t)(ptr)%page_size)":
         raise TranslateError("deallocate lookup key changed: %r" % nows(key))
